@@ -172,7 +172,16 @@ def run(ctx):
                 try:
                     tgt, _ = lifecycle.build(kind, wd)
                     if target == "same":
-                        oq.quantize(tgt, **kw)
+                        tkw = dict(kw)
+                        if frozen and wq in ("qint8", "qfloat8", "qfloat8_e4m3fn", "qfloat8_e5m2") and r.random() < 0.3:
+                            # a target that was quantized (and frozen) with another 8-bit qtype: the state_dict decides
+                            others = [q_ for q_ in ("qint8", "qfloat8_e4m3fn", "qfloat8_e5m2") if oq.qtypes[q_].dtype != oq.qtypes[wq].dtype]
+                            tkw["weights"] = oq.qtypes[others[int(r.integers(len(others)))]]
+                            ctx.count("targets_with_other_8bit_qtype")
+                        oq.quantize(tgt, **tkw)
+                        if frozen and r.random() < 0.4:
+                            oq.freeze(tgt)  # an already frozen target (reloading a checkpoint into a deployed model)
+                            ctx.count("frozen_targets")
                         if r.random() < 0.3:
                             tgt.load_state_dict(sd2, assign=True)  # the assign_to_params_buffers path
                             ctx.count("loads_with_assign")
